@@ -2,8 +2,8 @@
 //! `--features output-port-v2`: the command-queue port) on a paused single-threaded
 //! tokio runtime, with real subscriber actors that record what their handler receives.
 //!
-//! `eng_outport --cap` prints the measured ring size of the port (0 = nothing is ever
-//! skipped) and exits.
+//! `eng_outport --cap` prints the measured ring size of the port (largest burst into a
+//! parked forwarder that arrives completely; 0 = nothing is ever skipped) and exits.
 //!
 //! stdin, one scenario per line:   <poison> | <op> ; <op> ; ...
 //!   poison:  `a:r` pairs (actor a's handler fails after receiving item r), or `-`
@@ -201,11 +201,26 @@ fn rt() -> tokio::runtime::Runtime {
 
 fn main() {
     if std::env::args().any(|a| a == "--cap") {
-        // burst far beyond any plausible ring into a parked forwarder: what arrives is the ring size
-        let n = 4096u64;
-        let out = rt().block_on(run_scenario(&format!("- | S 0 1 0 1 0 ; T ; B 0 {n} ; T")));
-        let got = out.matches(';').count() as u64 + 1;
-        println!("{}", if got >= n { 0 } else { got });
+        // largest burst into a parked forwarder that arrives completely = ring size
+        let count = |n: u64| -> u64 {
+            let out = rt().block_on(run_scenario(&format!("- | S 0 1 0 1 0 ; T ; B 0 {n} ; T")));
+            if out == "[[]]" {
+                0
+            } else {
+                out.matches(';').count() as u64 + 1
+            }
+        };
+        let mut cap = 0u64;
+        for n in 1..=256u64 {
+            if count(n) < n {
+                cap = n - 1;
+                break;
+            }
+        }
+        if cap == 0 && count(4096) < 4096 {
+            cap = 256;
+        }
+        println!("{cap}");
         return;
     }
     for line in stdin_lines() {
